@@ -1,6 +1,6 @@
 (* C09 -- environment variables round-trip exactly (subshell isolation is decided end-to-end, see DESIGN.md).
    Property theorems only; proofs are in ProofC09.v. *)
-From TV Require Import Base Utf8 Utf8Lemmas Regex Channel ChannelLemmas Hush Session ProofSession ProofC19 Sh ProofC01 ProofC09 ProofEnvUtf8 Subshell.
+From TV Require Import Base Utf8 Utf8Lemmas Regex Channel ChannelLemmas Hush Session ProofSession ProofC19 Sh ProofC01 ProofC09 ProofEnvUtf8 Subshell ProofC09b.
 
 (* (1) the line env(var, value) sends is read by the shell as  export NAME=VALUE  with exactly the value:
        for all names and values without NUL (leading dashes, backslashes, quotes, $, globs, newlines, blanks ...) *)
@@ -77,3 +77,16 @@ Theorem C09_subshell_exception_propagates :
   snd (run_op (SSub body false) st) = snd (run_list body (mkF (f_env f) (f_cwd f) [] :: f :: rest)).
 Proof. exact subshell_propagates. Qed.
 Print Assumptions C09_subshell_exception_propagates.
+
+(* (6) the code's side of subshell(): leaving the context sends `exit` and waits for the prompt -- for EVERY
+       fragmentation of what the console still prints, the machine is in sync with the outer shell afterwards (so by
+       C01_exec_exact the next command's output and status are exact) *)
+Theorem C09_subshell_leave_resyncs :
+  forall P c (stg : stage) noise,
+  insync c -> prompt c = Some (SLit P) -> P <> [] -> wf_pend stg ->
+  any_in (blacklist c) (EXIT_CMD ++ [CR]) = false ->
+  cat stg = noise ++ P -> prompt_only_at_end P noise ->
+  exists c', subshell_leave [stg] c = (IOk, c', []) /\ insync c' /\
+             wr (io c') = wr (io c) ++ EXIT_CMD ++ [CR] /\ prompt c' = prompt c.
+Proof. exact subshell_leave_resyncs. Qed.
+Print Assumptions C09_subshell_leave_resyncs.
